@@ -576,6 +576,17 @@ class SolverActor:
             if fault.get("when", "before") == "after":
                 functionValue.value = v
             w.log("eval", self.aid, "%d %s %s RAISE %s%s" % (idx, phase, vhex(y), fault["exc"], " noargs" if fault.get("noargs") else ""))
+            if fault["exc"] == "LibraryIndexError":
+                # a failure that is RAISED INSIDE LIBRARY CODE: the user's objective wraps a shipped benchmark and hands it
+                # a point with a coordinate missing - the IndexError's innermost frame lies in iOpt/problems/rastrigin.py
+                from iOpt.problems.rastrigin import Rastrigin as _R
+                from iOpt.trial import Point as _P, FunctionValue as _FV
+                try:
+                    _R(2).Calculate(_P([0.0], []), _FV())
+                except IndexError as exc:
+                    _INJECTED.append(exc)
+                    raise
+                raise HarnessError("Rastrigin(2) accepted a one-coordinate point")
             if fault.get("noargs"):
                 exc = core.EXC_KINDS[fault["exc"]]()       # e.g. a bare `raise KeyboardInterrupt`, an assert without message
                 w.fired["obj_raise_noargs"] += 1
